@@ -13,6 +13,7 @@ import ast
 from .. import flow
 from ..astutil import polarity_atoms, body_walk, call_name, call_recv, calls_in, kwarg, names_in, norm, strip_await, walk_no_nested
 from ..loader import AnalysisError
+from ..pattern import _canon_if
 from .common import in_lock, parmap, where
 
 PROP = "C04"
@@ -311,9 +312,14 @@ def r4_3(ctx):
     cn = p.func("mbox.Mailbox.check_new_msgs_and_flags")
     okc = False
     for s_ in body_walk(cn.node):
-        if isinstance(s_, ast.If) and isinstance(s_.test, ast.Compare) and isinstance(s_.test.left, ast.Constant) and s_.test.left.value == "unseen" and isinstance(s_.test.ops[0], ast.In):
-            var = norm(s_.test.comparators[0])
-            if any(norm(b) == f"{var}.discard('Seen')" for b in s_.body) and any(norm(b) == f"{var}.add('Seen')" for b in s_.orelse):
+        if not isinstance(s_, ast.If):
+            continue
+        t_, body_, orelse_ = _canon_if(s_)
+        if isinstance(t_, ast.Compare) and isinstance(t_.left, ast.Constant) and t_.left.value == "unseen" and isinstance(t_.ops[0], (ast.In, ast.NotIn)):
+            if isinstance(t_.ops[0], ast.NotIn):
+                body_, orelse_ = orelse_, body_
+            var = norm(t_.comparators[0])
+            if any(norm(b) == f"{var}.discard('Seen')" for b in body_) and any(norm(b) == f"{var}.add('Seen')" for b in orelse_):
                 okc = True
     if okc:
         ctx.ok("R4.3", where(cn), "reconcile: a new message is Seen exactly when it is not in `unseen`")
@@ -422,7 +428,12 @@ def r4_5(ctx):
     # parser sets silent from `.silent`
     ps = p.func("parse.IMAPClientCommand._p_store")
     ctx.analysed(ps)
-    ok = any(isinstance(s, ast.If) and ".silent" in norm(s.test) and any(norm(b) == "self.silent = True" for b in s.body) and any(norm(b) == "self.silent = False" for b in s.orelse) for s in body_walk(ps.node))
+    ok = False
+    for s in body_walk(ps.node):
+        if isinstance(s, ast.If):
+            t_, body_, orelse_ = _canon_if(s)
+            if ".silent" in norm(t_) and any(norm(b) == "self.silent = True" for b in body_) and any(norm(b) == "self.silent = False" for b in orelse_):
+                ok = True
     if ok:
         ctx.ok("R4.5", where(ps), "parser: silent = True iff `.SILENT` suffix present")
     else:
